@@ -5,10 +5,12 @@ package main
 // on the projected crash / fault states.
 
 import (
+	"encoding/json"
 	"fmt"
 	"math/rand"
 	"os"
 	"path/filepath"
+	"sort"
 	"strings"
 )
 
@@ -198,8 +200,11 @@ func fsEnumerate(goit string, c *Chunk, evs []M, contents map[string][]byte, tz 
 					if hit {
 						ks := c.T.Project(kr.Root, kr.Home)
 						stats.KillChecked++
-						if ks["dg"] != st["dg"] {
+						if !sameModuloTmpNames(ks, st, name == "commit") {
 							stats.KillMismatch++
+							if os.Getenv("VERIF_DEBUG") != "" {
+								fmt.Fprintf(os.Stderr, "DEBUG killmismatch cmd=%s k=%d next=%s %s ord=%d\n   killed meta=%v refs=%v head=%v\n   mater. meta=%v refs=%v head=%v\n", describeEv(ev), k, next.Kind, strings.TrimPrefix(next.Path, base), next.Ord, ks["meta"], ks["refs"], ks["head"].(M)["raw"], st["meta"], st["refs"], st["head"].(M)["raw"])
+							}
 						}
 					}
 					os.RemoveAll(kd)
@@ -281,4 +286,45 @@ var defaultErrnos = map[string][]string{
 var thoroughErrnos = map[string][]string{
 	"open": {"EACCES", "EIO"}, "creat": {"ENOSPC", "EACCES"}, "append": {"ENOSPC", "EACCES"}, "opentrunc": {"EACCES"}, "read": {"EIO"}, "getdents": {"EIO"},
 	"write": {"ENOSPC", "EIO"}, "mkdir": {"ENOSPC", "EACCES"}, "rename": {"EIO", "EACCES"}, "unlink": {"EIO", "EACCES"}, "rmdir": {"EIO"},
+}
+
+// sameModuloTmpNames compares two projected states ignoring the names (not the contents) of Goit's temporary
+// files (.goit/tmp-<pid>-<nanos>), which differ from run to run.
+// For commit (shapeOnly) the commit id embeds the second of the run, so ids and id-dependent bytes are compared by shape.
+func sameModuloTmpNames(a, b M, shapeOnly bool) bool {
+	if shapeOnly {
+		shape := func(st M) string {
+			var keys []string
+			ntmp := 0
+			for k := range st["meta"].(M) {
+				if strings.HasPrefix(k, "tmp-") {
+					ntmp++
+				} else {
+					keys = append(keys, k)
+				}
+			}
+			sort.Strings(keys)
+			j := func(v any) string { b, _ := json.Marshal(v); return string(b) }
+			return fmt.Sprint(keys, ntmp, sortedKeys(st["refs"].(M)), len(st["objs"].(M)), len(st["hlog"].([]any))) + j(st["wt"]) + j(st["idx"]) + j(st["head"]) + j(st["cfgl"])
+		}
+		return shape(a) == shape(b)
+	}
+	norm := func(st M) string {
+		var parts []string
+		var tmps []string
+		for k, v := range st["meta"].(M) {
+			if strings.HasPrefix(k, "tmp-") {
+				tmps = append(tmps, v.(string))
+			} else if strings.HasPrefix(k, "logs/") {
+				parts = append(parts, k) // reflog lines embed the second of the run: compared through the parsed records below
+			} else {
+				parts = append(parts, k+"="+v.(string))
+			}
+		}
+		sort.Strings(parts)
+		sort.Strings(tmps)
+		j := func(v any) string { b, _ := json.Marshal(v); return string(b) }
+		return strings.Join(parts, ";") + "|" + strings.Join(tmps, ";") + "|" + j(st["wt"]) + j(st["idx"]) + j(st["objs"]) + j(st["refs"]) + j(st["head"]) + j(st["hlog"]) + j(st["blog"]) + j(st["cfgl"]) + j(st["cfgg"])
+	}
+	return norm(a) == norm(b)
 }
